@@ -41,6 +41,23 @@ CLAIMS['C11'] = dict(
          'from "add the visited value", which the suite\'s uniform fields cannot. Trusted: clang lowering, IR interpreter (validated vs native each run), z3.',
     technique=TECH_A, engine='llir', ref='DESIGN.md section 3, C11')
 
+CLAIMS['C03'] = dict(
+    text='With all observations and ensemble members symbolic (ties are just feasible valuations), z3 shows on every feasible path of c_crps '
+         '(including the sort through the real comparator) that the CRPS equals mean_i(E|X-y| - 0.5 E|X-X\'|), that crps = reliability + potential and '
+         'resolution = uncertainty - potential, that reliability, potential, uncertainty are non-negative, that uncertainty is the CRPS of the '
+         'climatology and that the reliability table is consistent; order, shift and scale laws follow from equality with the symmetric definition.',
+    note='Bounds: (forecasts x members) up to 2x2, 1x3, 3x1 quick; 3x2, 2x3, 1x4, 4x1 thorough. Exact reals with exact rational constants (rounding outside). '
+         'qsort modelled as stable insertion sort calling the real comparator; malloc never fails. Dropping of missing observations happens in the '
+         'Python wrapper (pandas) and is outside this kernel-level claim.',
+    technique=TECH_A, engine='llir', ref='DESIGN.md section 3, C03')
+CLAIMS['C17'] = dict(
+    text='For every order 1..10 with symbolic coefficients, mean, initial value and series, z3 shows on every feasible path of the real kernels and of '
+         'their compositions that sim equals the reference recursion, residual(sim(e)) = e (missing innovations = 0), sim(residual(y)) = y on '
+         'non-missing y, missing inputs give zero residuals, and orders 0/11/-1 and NaN parameters are rejected.',
+    note='Bounds: length order+2 quick / order+4 thorough, NaN allowed at selected positions incl. the first steps, sum|phi|<=1.5, magnitudes <=100. '
+         'Exact reals (polynomial arithmetic). Python wrapper defaults outside. Trusted: clang lowering, IR interpreter (validated vs native), z3.',
+    technique=TECH_A, engine='llir', ref='DESIGN.md section 3, C17')
+
 PENDING = 'check not built yet in this session (planned, see DESIGN.md section 3)'
 NOT_APPLICABLE = {
     'C13': 'persistence is carried by numpy tofile/fromfile, dtype objects, zipfile and float repr: no arithmetic core a solver can be given; '
